@@ -108,6 +108,17 @@ pub fn gen(tier: &str, seed: u64, emit: &mut dyn FnMut(String)) {
                 emit(one_case(compact, l, fm, pm, cm, pr, &mut rng));
             }
         }
+        // grammar-directed random sequences (starts with every kind of pointer_field and declared length, continuations of any
+        // size, payload-less packets, stuffing): no target section, the model of the chain is the oracle
+        for _ in 0..(if big { 6000 } else { 600 }) {
+            let mut pk = crate::suites::c01::psi_grammar(0x40, &mut rng);
+            if rng.chance(1, 2) { let more = crate::suites::c01::psi_grammar(0x40, &mut rng); pk.extend(more); }
+            // also through the chains with the de-duplication and / or CRC layers (bit 1 / bit 2)
+            let f = if compact { 1 } else { *rng.pick(&[0u64, 0, 2, 4, 6]) };
+            let mut line = format!("SEC {}", f);
+            for p in pk.iter() { line.push(' '); line.push_str(&hex(p)); }
+            emit(line);
+        }
         // the full cross product for a few boundary lengths
         for &l in [0usize, 1, 4, 5, 9, 172, 173, 174, 175, 180, 181, 182, 183, 184, 365, 1020, 1021, 1022].iter() {
             for fm in 0..6 { for pm in 0..6 { for cm in 0..6 { for pr in 0..5 { emit(one_case(compact, l, fm, pm, cm, pr, &mut rng)); } } } }
